@@ -238,6 +238,12 @@ func (g *seqGen) randomOp(recent *[]plan.Op) {
 		op = plan.Op{Fn: "new", L: lang, N: int64([]int{12, 15, 18, 21, 24, 13, 0}[r.Intn(7)]), Keep: true}
 	}
 	g.add(op)
+	if r.Intn(5) == 0 && !(op.Fn == "new" && op.Src == nil) {
+		// immediate repetition, then (later ops) something different: A, A, B
+		for k := 0; k <= r.Intn(2); k++ {
+			g.add(op)
+		}
+	}
 	if len(*recent) < 40 {
 		*recent = append(*recent, op)
 	} else {
@@ -432,6 +438,42 @@ func checkC13(e *Env) {
 		pairs.Add(fmt.Sprint(jb.l1, ",", jb.l2))
 	})
 
+	// (a') a failing or unsupported first call, then first use of each language
+	type prelude struct {
+		name string
+		op   plan.Op
+	}
+	preludes := []prelude{
+		{"unsupported-chk", plan.Op{Fn: "chk", L: 100, S: hxs("abandon abandon abandon abandon abandon abandon abandon abandon abandon abandon abandon about")}},
+		{"unsupported-enc", plan.Op{Fn: "enc", L: -1, E: hx(make([]byte, 16))}},
+		{"unsupported-new", plan.Op{Fn: "new", L: 10, N: 12, Src: &plan.Src{Data: hx(make([]byte, 16))}}},
+		{"bad-size-enc", plan.Op{Fn: "enc", L: 2, E: hx(make([]byte, 17))}},
+		{"bad-count-new", plan.Op{Fn: "new", L: 2, N: 13}},
+		{"failing-source-new", plan.Op{Fn: "new", L: 2, N: 24, Src: &plan.Src{Data: "0011", Steps: []plan.Step{{N: 2, E: "custom"}}}}},
+		{"bad-checksum-chk", plan.Op{Fn: "chk", L: 2, S: hxs("abandon abandon abandon abandon abandon abandon abandon abandon abandon abandon abandon abandon")}},
+		{"unknown-word-chk", plan.Op{Fn: "chk", L: 2, S: hxs("abandon abandon abandon abandon abandon abandon abandon abandon abandon abandon abandon qzx")}},
+		{"string-of-unsupported", plan.Op{Fn: "str", L: -7}},
+		{"huge-seed", plan.Op{Fn: "seed", SSegs: []plan.Seg{{H: "e38182", R: 5000}}, P: hxs("x")}},
+	}
+	parallel(len(preludes)*ref.NLang, e.Workers, func(j int) {
+		pl, l := preludes[j/ref.NLang], j%ref.NLang
+		g := &seqGen{e: e, r: rng.New(e.Seed, fmt.Sprintf("C13-prelude-%s-%d", pl.name, l)), bufs: map[int][]byte{}}
+		g.add(pl.op)
+		g.add(pl.op)
+		order := append([]int{l}, g.r.Perm(ref.NLang)...)
+		for _, x := range order {
+			s := g.validSentence(x)
+			g.add(plan.Op{Fn: "chkval", L: int64(x), S: hxs(s)})
+			g.add(plan.Op{Fn: "enc", L: int64(x), E: hx(g.r.Bytes(ref.EntSizes[g.r.Intn(5)])), Keep: true})
+			g.add(plan.Op{Fn: "str", L: int64(x)})
+		}
+		sd := plan.Op{Fn: "seed", S: hxs(g.validSentence(l)), P: hxs("pw"), Keep: true}
+		g.add(sd)
+		g.add(sd)
+		g.add(plan.Op{Fn: "seed", S: hxs(g.validSentence(l)), P: hxs("other"), Keep: true})
+		runSequence(fmt.Sprintf("prelude(%s,%d)", pl.name, l), g, 1)
+	})
+
 	// (b) random sequences
 	nseq := e.pick(60, 2000)
 	parallel(nseq, e.Workers, func(s int) {
@@ -455,7 +497,7 @@ func checkC13(e *Env) {
 	e.WriteEvidence("exploration", map[string]any{
 		"evaluations":                      totalOps,
 		"distinct_nontrivial":              dist.Len(),
-		"rule":                             "cases are call sequences executed in one fresh process each: (a) every ordered pair of first-used languages (10x10; thorough 13x13 incl. -1, 10, 100, three first-call kinds, two repetitions) followed by probe calls on all ten languages; (b) seeded random sequences of 100-300 calls over all six functions, ten languages and unsupported values, with failing calls, repeated inputs far apart, caller-owned entropy buffers reused across calls, and NewMnemonic on scripted and default sources; every result is compared with the history-free reference model and with the same call executed alone as the first call of another fresh process (all deterministic calls in quick; one in eight of the random sequences' calls in thorough); entropy buffers are re-inspected after every call and at the end, and every retained result is re-read (digest) at the end of its sequence; non-trivial = every call with history; distinct = distinct calls (function, arguments)",
+		"rule":                             "cases are call sequences executed in one fresh process each: (a) every ordered pair of first-used languages (10x10; thorough 13x13 incl. -1, 10, 100, three first-call kinds, two repetitions) followed by probe calls on all ten languages; (a') ten kinds of failing or unsupported first calls, each followed by first use of every language; (b) seeded random sequences of 100-300 calls (one call in five is repeated immediately, then followed by different ones) over all six functions, ten languages and unsupported values, with failing calls, repeated inputs far apart, caller-owned entropy buffers reused across calls, and NewMnemonic on scripted and default sources; every result is compared with the history-free reference model and with the same call executed alone as the first call of another fresh process (all deterministic calls in quick; one in eight of the random sequences' calls in thorough); entropy buffers are re-inspected after every call and at the end, and every retained result is re-read (digest) at the end of its sequence; non-trivial = every call with history; distinct = distinct calls (function, arguments)",
 		"samples":                          smp.List(),
 		"ordered_first_use_pairs_covered":  pairs.Len(),
 		"ordered_first_use_pairs_possible": wantPairs,
